@@ -21,8 +21,12 @@ REAL = common.REAL_DECODER
 ASSUMPTIONS = ["reference model + pinned layout snapshot define region accounting (DESIGN.md 4.2)",
                "where the statement leaves a choice (several regions crossed at once, input ending inside the skip, "
                "trailing structure events) every admissible report is accepted"]
-TIERS = {"quick": {"runs": 60000, "budget": 75}, "thorough": {"runs": 900000, "budget": 780}}
+TIERS = {"quick": {"runs": 40000, "budget": 75}, "thorough": {"runs": 900000, "budget": 780}}
 DOMAIN = oracle.SIZE_KINDS
+
+
+def enumerate_all(tier, rng):
+    return tier == "thorough" and rng.random() < 0.5 or rng.random() < 0.01
 
 
 def make_case(i, rng, tier):
@@ -36,6 +40,15 @@ def make_case(i, rng, tier):
         raise HarnessError("generator produced a malformed input: %s %s" % (inp["label"], o.problem))
     if not o.sizefields:
         return None
+    if enumerate_all(tier, rng) and len(o.sizefields) <= 40:
+        vs = []
+        for idx, _r in o.sizefields:
+            for val in F.size_variants(o, idx, rng):
+                f = F.fault_size(inp["data"], o, rng, idx=idx, value=val)
+                if f:
+                    vs.append((f[0], [f[1]]))
+        if vs:
+            return common.with_variants(common.mk_case(rng, inp, inp["data"], []), vs[:400])
     data, recs = inp["data"], []
     n = 2 if rng.random() < 0.1 else 1
     for _ in range(n):
@@ -49,7 +62,7 @@ def make_case(i, rng, tier):
     return common.mk_case(rng, inp, data, recs)
 
 
-def check(case):
+def check_one(case):
     res = Result()
     w = common.run_world(case, res)
     t, data, o = common.main_ref(case, w)
@@ -92,7 +105,16 @@ def check(case):
     return res
 
 
+def check(case):
+    if "variants" in case:
+        return common.check_variants(case, check_one)
+    return check_one(case)
+
+
 def shrink(case):
+    if "variants" in case:
+        yield from common.shrink_variants(case)
+        return
     yield from common.shrink_tasks(case, {"main"})
     # try the single faults alone, on the original bytes
     if len(case.get("faults", [])) > 1:
